@@ -5,6 +5,12 @@ from scipy.constants import g, pi
 from wavespectra.core.utils import R2D
 
 
+def _dd(dir):
+    """Direction bin width from the first two directions, the short way round the circle."""
+    dd = abs(dir[1] - dir[0]) % 360
+    return min(dd, 360 - dd)
+
+
 def mom1(spectrum, dir, theta=90.0):
     """First directional moment.
 
@@ -18,7 +24,7 @@ def mom1(spectrum, dir, theta=90.0):
         - mcos (float): Cosine component of the 1st directional moment.
 
     """
-    dd = dir[1] - dir[0]
+    dd = _dd(dir)
     cp = np.cos(np.radians(180 + theta - dir))
     sp = np.sin(np.radians(180 + theta - dir))
     msin = (dd * spectrum * sp).sum(axis=1)
@@ -58,7 +64,7 @@ def hs(spectrum, freq, dir=None, tail=True):
     """
     df = abs(freq[1:] - freq[:-1])
     if dir is not None and len(dir) > 1:
-        ddir = abs(dir[1] - dir[0])
+        ddir = _dd(dir)
         E = ddir * spectrum.sum(1)
     else:
         E = np.squeeze(spectrum)
